@@ -246,6 +246,18 @@ func (S) RunTape(t *sim.Tape, st *sim.Stats, keepLog bool) *sim.Outcome {
 		if w.backend == 1 && lnk == nil {
 			key, cls, lnk = cidKey(t, content, true)
 		}
+		if w.backend == 1 && len(w.lnks) > 0 && t.Pct(25, "key.digestalias") {
+			// a block whose bytes ARE the digest of an earlier key, under the identity hash: its multihash
+			// carries the same digest bytes as the earlier key's, under another hash function code
+			prev := w.lnks[t.Choice(len(w.lnks), "key.alias.of")].(cidlink.Link)
+			if dm, err := mh.Decode(prev.Hash()); err == nil && dm.Code != mh.IDENTITY && len(dm.Digest) > 0 {
+				content = append([]byte(nil), dm.Digest...)
+				c, _ := cid.Prefix{Version: 1, Codec: 0x55, MhType: mh.IDENTITY, MhLength: -1}.Sum(content)
+				lnk = cidlink.Link{Cid: c}
+				key, cls = lnk.Binary(), "cid-identity-of-another-digest"
+				st.Inc("probe.digest_alias_key")
+			}
+		}
 		if w.backend == 1 {
 			// Memory is keyed by multihash: identical multihash = identical content here,
 			// because keys are genuine links; but two different CIDs over one multihash
@@ -372,6 +384,8 @@ func (w *world) sig(k int) string {
 	switch {
 	case w.keys[k] == "":
 		c = "empty"
+	case strings.HasPrefix(c, "cid-identity-of"):
+		c = "cid-digest-alias"
 	case strings.HasPrefix(c, "cid"):
 		c = "cid-binary"
 	case strings.HasPrefix(c, "adversarial"):
